@@ -97,6 +97,10 @@ def gen_expr(rng, mode):
         pre += ["-mindepth", str(rng.randint(0, 2))]
     if rng.random() < 0.2:
         pre += ["-maxdepth", str(rng.randint(1, 3))]
+    if rng.random() < 0.2:
+        # -prune in front of -delete: -delete implies -depth, under which -prune changes nothing (it is just true)
+        tp = rng.choice([["-name", "a"], ["-name", "b"], ["-name", "[c-e]"], ["-type", "d", "-name", "?"], ["-path", "*/a"], ["-name", "k"]])
+        e = tp + ["-prune", "-o"] + (e if e else ["-true"])
     return pre + e
 
 
@@ -111,6 +115,16 @@ def gen_sandbox(rng, mode):
     if not have_out:
         nodes = [treegen.Node("out", "d"), treegen.Node("out/of", "f", size=3), treegen.Node("out/od", "d"),
                  treegen.Node("out/od/og", "f", size=1), treegen.Node("out/od/sub", "d"), treegen.Node("out/od/sub/h", "f")] + nodes
+    if rng.random() < 0.2:
+        # names that are not valid UTF-8 (surrogate escapes), with look-alike siblings spelled with U+FFFD
+        dirs_ = [n.path for n in nodes if n.kind == "d" and n.path.startswith("r")]
+        for nm in rng.sample(["a\udce9", "b\udcff.txt", "\udce8k", "x\udc80", "a\ufffd", "b\ufffd.txt"], rng.randint(2, 4)):
+            pth = rng.choice(dirs_) + "/" + nm
+            if all(n.path != pth for n in nodes):
+                kind = rng.choice(["f", "f", "d"])
+                nodes.append(treegen.Node(pth, kind, size=rng.choice([0, 3])))
+                if kind == "d":
+                    dirs_.append(pth)
     nodes.append(treegen.Node("sibling", "d"))
     nodes.append(treegen.Node("sibling/keep", "f", size=4))
     nodes.append(treegen.Node("lroot", "l", target="r"))
@@ -162,7 +176,8 @@ def worker(job):
             expr = gen_expr(rng, mode)
             roots = ["r"]
             r = rng.random()
-            subdirs = [n.path for n in nodes if n.kind == "d" and n.path.startswith("r/")]
+            # (starting points must be valid UTF-8: find refuses other arguments)
+            subdirs = [n.path for n in nodes if n.kind == "d" and n.path.startswith("r/") and not any(0xDC80 <= ord(ch) <= 0xDCFF for ch in n.path)]
             if mode == "H" and r < 0.6:
                 roots = ["lroot"]
             elif r < 0.2 and subdirs:
@@ -184,8 +199,30 @@ def worker(job):
                 w = refwalk.Walk(mode, opts["mindepth"], opts["maxdepth"], True, True, sb)
                 for root in roots:
                     w.run(root, lambda e: refeval.evaluate(ast, e, renv) and False)
-                ref_set = sorted(c[1][:-1].decode("utf-8", "surrogateescape") for c in renv.sinks.get("stdout", []))
-                if sorted(printed) != ref_set and not w.out_of_domain:
+                ref_list = [c[1][:-1].decode("utf-8", "surrogateescape") for c in renv.sinks.get("stdout", [])]
+                ref_set = sorted(ref_list)
+                raw = any(0xDC80 <= ord(ch) <= 0xDCFF for n_ in nodes for ch in n_.path)
+                if raw:
+                    # -print0 shows such names lossily: compare after the same conversion, then go on with the exact names
+                    st.inc("sandboxes_with_non_utf8_names")
+                    lossy = [os.fsencode(x).decode("utf-8", "replace") for x in ref_list]
+                    if sorted(os.fsencode(x).decode("utf-8", "replace") for x in printed) != sorted(lossy) and not w.out_of_domain:
+                        st.violate("matched-set-differs-from-reference", None, {"args": prn[1:], "printed": printed[:20], "reference(lossy)": lossy[:20]},
+                                   {"tree": [n.to_json() for n in nodes], "args": prn[1:]})
+                    # exact names, in find's own -depth order: observed through the argv of `-exec rec {} +`
+                    xlog = os.path.join(base, "x-%d.log" % t)
+                    rcx, outx, errx, tox = common.run_cmd([common.FIND] + flag + roots + ["-sorted", "-depth"] + expr + ["-exec", common.REC, "{}", "+"],
+                                                          cwd=sb, env=common.clean_env({"VERIF_REC_LOG": xlog}), timeout=60)
+                    import xref
+                    exact = [a.decode("utf-8", "surrogateescape") for _, argv in xref.read_reclog(xlog) for a in argv]
+                    for f_ in (xlog, xlog + ".n"):
+                        if os.path.exists(f_):
+                            os.unlink(f_)
+                    if sorted(exact) != ref_set and not w.out_of_domain:
+                        st.violate("matched-set-differs-from-reference", None, {"args": prn[1:], "exec_plus_argv": exact[:20], "reference": ref_set[:20]},
+                                   {"tree": [n.to_json() for n in nodes], "args": prn[1:]})
+                    printed = exact
+                elif sorted(printed) != ref_set and not w.out_of_domain:
                     st.violate("matched-set-differs-from-reference", None,
                                {"args": prn[1:], "printed": sorted(printed)[:20], "reference": ref_set[:20]},
                                {"tree": [n.to_json() for n in nodes], "args": prn[1:]})
@@ -240,7 +277,10 @@ def worker(job):
                 problems.append("exit status %r without any failed removal: %r" % (rc, err[-200:]))
             # -delete is true exactly for the successful removals (observed through the following -printf)
             dtrue = [p.decode("utf-8", "surrogateescape")[2:] for p in out.split(b"\0")[:-1]]
-            if dtrue != [p for o, p in ok_exp]:
+            exp_true = [p for o, p in ok_exp]
+            if any(0xDC80 <= ord(ch) <= 0xDCFF for p_ in exp_true for ch in p_):
+                exp_true = [os.fsencode(p_).decode("utf-8", "replace") for p_ in exp_true]      # -printf is lossy for such names
+            if dtrue != exp_true:
                 problems.append("-delete true for %r, expected exactly the successful removals %r" % (dtrue[:6], [p for o, p in ok_exp][:6]))
             # walk continues after a failure: every printed entry must have been attempted
             got_paths = [p for o, p, ok in attempts]
@@ -264,7 +304,7 @@ def run(ctx):
                 "points incl. a symlinked one and a missing one; many matched directories stay non-empty (forced failures); "
                 "distinct = (roots, expression, mode, tree)")
     ctx.assumptions = ["under -L only links to distinct outside targets (two followed paths to one entry make '-depth -print on an identical tree' state dependent)",
-                       "starting point '.' not used", "strace as recorder of mutating system calls; plain ASCII names (hostile names: C07/C09)"]
+                       "starting point '.' not used", "strace as recorder of mutating system calls; ASCII names plus, in a fifth of the sandboxes, names that are not valid UTF-8 next to look-alikes spelled with U+FFFD"]
     if c_unescape(rb'a\"b\\c\303\251\n') != 'a"b\\cé\n'.encode():
         raise common.Inconclusive("strace unescape self-check failed")
     try:
@@ -274,5 +314,5 @@ def run(ctx):
     nw = common.NCPU
     n = ctx.scale(320, 8000)
     ctx.pmap(worker, [(k, n // nw, ctx.seed) for k in range(nw)])
-    for key in ("runs_with_failed_removal", "runs_mode_P", "runs_mode_H", "runs_mode_L", "link_entries_removed", "removal_events_observed"):
+    for key in ("runs_with_failed_removal", "runs_mode_P", "runs_mode_H", "runs_mode_L", "link_entries_removed", "removal_events_observed", "sandboxes_with_non_utf8_names"):
         ctx.require(key, 3)
